@@ -43,6 +43,8 @@ def rand_case(rng, kinds=("hash", "probe", "counter"), memo="False", maxdim=6):
         c["pred"] = "steps:%d" % rng.randint(1, 3)
     else:
         c["T"] = rng.randint(1, 4)
+    if rng.random() < 0.3:
+        c["layout"] = rng.choice(["F", "rev", "str", "T"])     # row-major means by index, whatever the memory order
     return c
 
 
